@@ -548,6 +548,13 @@ def agree(run, fx, rule='PLANEROUTE'):
                     it.MAX_STEPS = 150000
                     it.call(fx.one('graphite2::CachedCmap::CachedCmap'), cc, [O.Rec()])
                     nat = natc
+                    # the face asks the cmap whether it is usable (Face::readGlyphs: `!*m_cmap` fails the load): a cache built from a
+                    # well-formed format 4 subtable is, whatever code points it maps -- the direct cmap of the same table is
+                    usable = O.Interp(fx, natives=nat).call(fx.one('graphite2::CachedCmap::operator bool'), cc, [])
+                    if not usable:
+                        prob = ('%s: the cached cmap reports itself unusable (CachedCmap::operator bool is false) although its sub-tables are well-formed and the direct cmap of the same tables is '
+                                'usable: with gr_face_cacheCmap the face does not load at all' % desc)
+                        break
                     probe = sorted(set(range(0, 9)) | {0xD7FD, 0xD7FE, 0xD7FF, 0xD800, 0xD801, 0xD802, 0xDFFD, 0xDFFE, 0xDFFF, 0xE000, 0xE001, 0xE002, 0xE003} | {0xFFF9, 0xFFFA, 0xFFFB, 0xFFFC, 0xFFFD, 0xFFFE, 0xFFFF, 0x10000, 0x10001, 0x10002, 0x10003, 0x10004, 0x10005, 0x10FFFF})
                     for c_ in probe + probe[::-1]:
                         a_ = O.Interp(fx, natives=nat).call(cop, cc, [c_])
